@@ -172,7 +172,9 @@ void eval_factorization(Ctx &x, int opi, const OpSpec &op, long info, bool check
             add_viol(o, primary_property(c.profile), "info_gt_n_without_fault", fmt("info=%ld n=%d", info, n), opi); return;
         }
         if (ri.singular) { o.excl["ref_singular"]++; return; }
-        if (ri.cond1 > 0.1L / eps) { o.excl["ill_conditioned_info_gt0"]++; return; }
+        // an exactly zero pivot means that A + E is singular for the backward error E of the elimination, |E| <= gamma_n |L||U|, so it is
+        // legitimate as soon as 1/cond <= n eps rho (rho = || |L||U| || / ||A||); asserted only where cond n eps < 0.01, i.e. for rho up to 100
+        if (ri.cond1 * n * eps > 0.01L) { o.excl["ill_conditioned_info_gt0"]++; return; }
         // with the threshold (nearly) switched off, tiny pivots are accepted and catastrophic growth can produce an exact zero later
         if (op.x.u < 0.01 && op.kind != OP_GSSV) { o.excl["weak_pivoting_info_gt0"]++; return; }
         add_viol(o, "C01", "info_nonzero_on_nonsingular", fmt("info=%ld cond1=%.3Le", info, ri.cond1), opi, "info_nonzero_on_nonsingular");
@@ -245,6 +247,13 @@ void eval_singular(Ctx &x, int opi, const OpSpec &op, long info, const XOut &xo,
     long hall = first_struct_deficient(nz, order);
     long ksym = first_symbolic_empty(nz, order, pr);   // exact zero guaranteed at this position (0-based) or -1
     bool generic = c.tags.count("valclass") && (c.tags["valclass"] == 1 || c.tags["valclass"] == 2 || c.tags["valclass"] == 5 || c.tags["valclass"] == 0);
+    if (generic && c.tags["valclass"] == 5) {
+        // a third of the badly scaled matrices consists of signed powers of two only (exactly representable scale factors):
+        // products and quotients of such entries are exact, so exact cancellation is ordinary there - not generic values
+        bool dyadic = true;
+        for (auto &v : vals) for (ld t : {v.real(), v.imag()}) { int e; if (t != 0 && fabsl(frexpl(t, &e)) != 0.5L) dyadic = false; }
+        if (dyadic) generic = false;
+    }
     bool dup = c.family.find("duplicate_column") != std::string::npos;
     if (hall > 0) o.probes["structurally_singular_runs"]++;
     if (ksym >= 0) {
@@ -265,7 +274,7 @@ void eval_singular(Ctx &x, int opi, const OpSpec &op, long info, const XOut &xo,
         if (dup) o.excl["inexact_cancellation_class"]++;
         else if (generic) {
             const RefInfo &ri = ref_for(x, op.values_id, csc_to_dense(c.M, vals));
-            if (!ri.singular && ri.cond1 < 0.1L / prec_eps(c.prec)) add_viol(o, "C06", "singular_reported_on_nonsingular", fmt("info=%ld cond1=%.3Le", info, ri.cond1), opi);
+            if (!ri.singular && ri.cond1 * n * prec_eps(c.prec) < 0.01L) add_viol(o, "C06", "singular_reported_on_nonsingular", fmt("info=%ld cond1=%.3Le", info, ri.cond1), opi);
             else o.excl["numerically_singular"]++;
         } else o.excl["nongeneric_values"]++;
     }
@@ -315,7 +324,7 @@ void eval_svx(Ctx &x, int opi, const OpSpec &op, const XOut &xo, const std::vect
     const RefInfo &ri0 = ref_for(x, op.values_id, Aorig);
     if (ri0.singular) { o.excl["ref_singular"]++; return; }
     if (!(info == 0 || info == n + 1)) {
-        if (info > 0 && info <= n && ri0.cond1 > 0.1L / eps) { o.excl["ill_conditioned_info_gt0"]++; return; }
+        if (info > 0 && info <= n && ri0.cond1 * n * eps > 0.01L) { o.excl["ill_conditioned_info_gt0"]++; return; }
         if (info > n + 1 && op.x.lwork > 0 && c.profile != "alloc" && c.profile != "leak") { add_viol(o, "C14", "sufficient_workspace_reported_exhausted", fmt("info=%ld n=%d lwork=%ld: the caller workspace is twice a generous estimate of the need", info, n, op.x.lwork), opi); return; }
         if (info > n + 1 && op.x.lwork > 0) { o.excl["caller_workspace_exhausted"]++; return; }
         add_viol(o, "C07", "info_not_0_or_n_plus_1", fmt("info=%ld n=%d cond1=%.3Le", info, n, ri0.cond1), opi); return;
@@ -511,7 +520,11 @@ void eval_svx(Ctx &x, int opi, const OpSpec &op, const XOut &xo, const std::vect
         }
         for (int j = 0; j < nrhs; ++j) {
             ld b = xo.berr[j], f = xo.ferr[j];
-            if (!(b >= 0) || !(f >= 0) || !(f < INFINITY)) { add_viol(o, "C13", "bounds_not_finite_nonnegative", fmt("berr=%.3Le ferr=%.3Le", b, f), opi); break; }
+            // the forward bound involves an estimate of | |inv A| (...) |, which need not be representable in the working precision once the
+            // matrix is singular to working precision (info = n+1): ferr is asserted finite only inside the class of the property's ferr claim
+            bool ferr_class = cond_used < 0.1L / eps;
+            if (!(b >= 0) || (ferr_class && (!(f >= 0) || !(f < INFINITY)))) { add_viol(o, "C13", "bounds_not_finite_nonnegative", fmt("berr=%.3Le ferr=%.3Le", b, f), opi); break; }
+            if (!ferr_class && (!(f >= 0) || !(f < INFINITY))) o.excl["ferr_not_finite_outside_admitted_class"]++;
             ld tol = 2.0L * (n + 2) * ee + 1e-6L * w[j];
             if (!(fabsl(b - w[j]) <= tol)) { add_viol(o, "C13", "berr_not_truthful", fmt("rhs %d: berr=%.6Le but true componentwise backward error of the returned X is %.6Le (trans=%d %s equed=%d)", j, b, w[j], t, c.stype_nr ? "NR" : "NC", xo.equed), opi); break; }
             o.probes["svx_berr_checked"]++;
@@ -691,7 +704,7 @@ Outcome run_case(Case &c, const RunnerOpts &ro) {
     if (!is_perm(x.base_perm_c, n)) add_viol(out, "C10", "ordering_not_bijection", "get_perm_c result is not a permutation", -1);
 
     SvxState svx_state;
-    bool last_fact_ok = false;
+    bool last_fact_ok = false, last_fact_singular = false;
     bool leakprof = c.profile == "leak" || c.profile == "symleak";
     if (leakprof) sim::forget_live_blocks();
     int reps = leakprof ? 2 : 1;
@@ -742,6 +755,13 @@ Outcome run_case(Case &c, const RunnerOpts &ro) {
         if (budget <= 0) budget = ro.baseline_steps > 0 ? 64 * ro.baseline_steps + 10000 : 200000 + 400L * n * n + 4000L * n * op.x.nprocs;
         cfg.step_budget = budget;
         cfg.fill = (uint8_t)(0xA1 + (c.seed % 5) * 0x11);
+        {   // OpenMP flavour: size of the simulated team (a function of the schedule seed and nprocs, so replays need nothing extra).
+            // The loop over nprocs "threads" is divided statically among the team: with a smaller team one OS thread runs several
+            // p?gstrf_thread() instances one after the other, with a larger one the extra members get no iteration.
+            sim::Rng rt(sim::derive(op.sched.seed, 991));
+            int w = (int)rt.below(100), P = std::max(1, op.x.nprocs);
+            cfg.omp_team = w < 60 ? P : w < 85 ? (int)rt.range(1, P) : P + (int)rt.range(1, 3);
+        }
         sim::reset_captured_stderr();
         if (c.profile == "alloc") sim::forget_live_blocks();
         monitor_begin_op(c, op, opi);
@@ -785,8 +805,11 @@ Outcome run_case(Case &c, const RunnerOpts &ro) {
         if (ro.verbose) fprintf(stderr, "[op %d %s] info=%ld steps=%ld decisions=%ld switches=%ld events=%ld allocs=%ld\n", opi, opkind_name(op.kind), info,
                                 st.steps, st.decisions, st.switches, st.events, st.allocs);
 
-        if (op.kind == OP_GSSV || op.kind == OP_ROUTE || (op.kind == OP_GSSVX && op.x.fact != 2 && op.x.lwork != -1))
+        if (op.kind == OP_GSSV || op.kind == OP_ROUTE || (op.kind == OP_GSSVX && op.x.fact != 2 && op.x.lwork != -1)) {
+            if (op.x.refact && last_fact_singular) { out.probes["refactorizations_after_singular_factorization"]++; if (op.x.usepr) out.probes["pivot_reuse_after_singular_factorization"]++; }
             last_fact_ok = (info == 0) || (op.kind == OP_GSSVX && info == n + 1);
+            last_fact_singular = info > 0 && info <= n;
+        }
         if (c.profile == "forest" && info == 0 && (int)drv.get_etree().size() == n) {
             // the enumeration is over elimination forests: confirm that the library worked on the intended one
             std::vector<long> et = drv.get_etree(); bool same = (int)et.size() == n;
